@@ -62,7 +62,7 @@ int haes_replay(const char * js);
 void haes_finish(uint64_t nrt);
 
 /* ------------------------------------------------------------------ parameters */
-static int a_profile, a_rtloop, a_rt = -1;
+static int a_profile, a_rtloop, a_rt = -1, a_misalign;
 static const char * a_prop = "C02";
 
 #define W20 ((uint64_t)1 << 20)
@@ -280,7 +280,7 @@ block_case(int kidx, int bidx, int report)
 	block_pt(bidx, pt);
 	ref_aes_expand(&rk, key, klen); ref_aes_encrypt(&rk, pt, want);
 	if ((lk = crypto_aes_key_expand(key, klen)) == NULL) vf_engine_error("crypto_aes_key_expand failed");
-	snprintf(rj, sizeof(rj), "{\"h\":\"aes\",\"kind\":\"block\",\"keyidx\":%d,\"blockidx\":%d,\"rt\":%d}", kidx, bidx, a_rt);
+	snprintf(rj, sizeof(rj), "{\"h\":\"aes\",\"kind\":\"block\",\"keyidx\":%d,\"blockidx\":%d,\"rt\":%d,\"misalign\":%d}", kidx, bidx, a_rt, a_misalign);
 	for (mode = 0; mode < 2; mode++) {
 		memset(buf, CANARY, sizeof(buf));
 		if (mode == 0) { memcpy(in, pt, 16); out = buf + 16; crypto_aes_encrypt_block(in, out, lk); }
@@ -325,7 +325,7 @@ ctrbuf_case(int kid, int nidx, size_t len, int inplace, int content, int report)
 	pt_fill(scratch_want, content, 0, len); memcpy(in, scratch_want, len); ks_xor(scratch_want, kid, nidx, 0, len);
 	crypto_aesctr_buf(LK[kid], NONCE[nidx], in, out, len);
 	for (i = 0; i < len; i++) if (out[i] != scratch_want[i]) { bad = i; break; }
-	snprintf(rj, sizeof(rj), "{\"h\":\"aes\",\"kind\":\"ctrbuf\",\"kid\":%d,\"nidx\":%d,\"len\":%zu,\"inplace\":%d,\"content\":%d,\"rt\":%d}", kid, nidx, len, inplace, content, a_rt);
+	snprintf(rj, sizeof(rj), "{\"h\":\"aes\",\"kind\":\"ctrbuf\",\"kid\":%d,\"nidx\":%d,\"len\":%zu,\"inplace\":%d,\"content\":%d,\"rt\":%d,\"misalign\":%d}", kid, nidx, len, inplace, content, a_rt, a_misalign);
 	if (bad < len)
 		vf_violation(a_sig(sig, sizeof(sig), "ctrbuf:value"), rj, "crypto_aesctr_buf(AES-%zu, nonce %016llx, %zu bytes, %s): byte %zu is %02x, reference %02x", KEYLEN[kid] * 8,
 		    (unsigned long long)NONCE[nidx], len, inplace ? "in place" : "separate", bad, out[bad], (uint8_t)(pt_byte(content, bad) ^ ks_byte(kid, nidx, bad)));
@@ -610,7 +610,8 @@ selftest_fault_unit(int f, int rt)
 	alloc_track(0);
 	if (alloc_failed_count() != 1) vf_engine_error("selftest-fault unit: %d allocations failed (expected exactly 1)", alloc_failed_count());
 	alloc_fail_at(0, 0);
-	if (verif_aes_path() != 0) vf_engine_error("selftest-fault unit: allocation %d failed but the AES path is %d, not the portable one", 1 + f, verif_aes_path());
+	/* which path the library uses after the failed self-test is its own business (the unchanged code falls back to the portable one): only outputs are compared */
+	{ char kk[64]; snprintf(kk, sizeof(kk), "selftest-fault.path_after_fault_%d", verif_aes_path()); vf_count(kk, 1); }
 	for (k = 384; k < NKEYS; k++) for (b = 128; b < NBLKS; b++) { vf_setcase("selftest-fault alloc#%d: block key=%d blk=%d", 1 + f, k, b); n += block_case(k, b, 0); }
 	vf_count("selftest-fault.states", n); vf_count("selftest-fault.transitions", n); vf_count("selftest-fault.traces", n);
 	for (u = 0; u < n_buf_units; u++) ctrbuf_unit(u);
@@ -618,6 +619,35 @@ selftest_fault_unit(int f, int rt)
 	vf_count("ctrbuf.units_extra", (uint64_t)n_buf_units); vf_count("aesctr.units_extra", 1);
 	vf_count("selftest-fault.units_done", 1);
 	vf_sample("AES-NI self-test made to fail (allocation #%d of the first use returns NULL once): AES falls back to the portable code, AES-CTR follows; block, one-shot and stream results equal the reference", 1 + f);
+}
+
+/*
+ * The allocator hands out blocks that start 8 bytes past a 16-byte boundary (what a malloc with 8-byte alignment does):
+ * expanded keys and stream objects then lie at 8 mod 16 and the AES-NI code has to align its round keys itself.
+ */
+static int n_misalign_units;
+static void
+misalign_unit(void)
+{
+	int k, b, kid, nidx, i, ip; uint64_t n = 0; struct crypto_aes_key * save[2];
+
+	keys_init();
+	alloc_reset(); alloc_track(1); alloc_misalign(1); a_misalign = 1;
+	for (k = 384; k < NKEYS; k++) for (b = 128; b < NBLKS; b++) { vf_setcase("misaligned allocator: block key=%d blk=%d", k, b); n += block_case(k, b, 0); }
+	for (kid = 0; kid < 2; kid++) {
+		save[kid] = LK[kid];
+		if ((LK[kid] = crypto_aes_key_expand(KEYB[kid], KEYLEN[kid])) == NULL) vf_engine_error("crypto_aes_key_expand failed (misaligned allocator)");
+		if (((uintptr_t)LK[kid] & 15) != 8) vf_engine_error("misaligned allocator: expanded key at %p is not 8 mod 16", (void *)LK[kid]);
+	}
+	for (kid = 0; kid < 2; kid++) for (nidx = 0; nidx < 4; nidx++) for (i = 0; i < nBUFLEN; i++) for (ip = 0; ip < 2; ip++) {
+		if (BUFLEN[i] > 300) continue;
+		vf_setcase("misaligned allocator: ctrbuf kid=%d nidx=%d len=%d inplace=%d", kid, nidx, BUFLEN[i], ip);
+		n += ctrbuf_case(kid, nidx, (size_t)BUFLEN[i], ip, 0, 0);
+	}
+	for (kid = 0; kid < 2; kid++) { crypto_aes_key_free(LK[kid]); LK[kid] = save[kid]; }
+	alloc_misalign(0); alloc_track(0); a_misalign = 0;
+	vf_count("misalign.states", n); vf_count("misalign.transitions", n); vf_count("misalign.traces", n); vf_count("misalign.units_done", 1);
+	vf_sample("allocator returning blocks at 8 mod 16: %llu block / one-shot CTR results with keys expanded at such addresses equal the reference", (unsigned long long)n);
 }
 
 void
@@ -630,14 +660,16 @@ haes_setup(int profile, const char * prop, int rtloop)
 	n_buf_units = 8;
 	n_stream_units = n_pairs * 4 * n_contents;
 	n_fault_units = (rtloop && (HC_BUILD_MASK & HC_AESNI)) ? 2 : 0;
+	n_misalign_units = 1;
 }
-uint64_t haes_nunits(void){ return ((uint64_t)(n_block_units + n_buf_units + n_stream_units + n_fault_units)); }
+uint64_t haes_nunits(void){ return ((uint64_t)(n_block_units + n_buf_units + n_stream_units + n_fault_units + n_misalign_units)); }
 
 static int used_ctr;
 void
 haes_run_unit(uint64_t u, int rt)
 {
 	a_rt = rt;
+	if (u >= (uint64_t)(n_block_units + n_buf_units + n_stream_units + n_fault_units)) { used_ctr = 1; misalign_unit(); return; }
 	if (u >= (uint64_t)(n_block_units + n_buf_units + n_stream_units)) { used_ctr = 1; selftest_fault_unit((int)(u - (uint64_t)(n_block_units + n_buf_units + n_stream_units)), rt); return; }
 	keys_init();
 	/* stream units first: they are the long ones */
@@ -673,6 +705,7 @@ haes_finish(uint64_t nrt)
 	if (vf_getcount("aesblock.units_done") == (uint64_t)n_block_units * nrt) vf_setmax("aesblock.exhaustive", 1);
 	if (vf_getcount("ctrbuf.units_done") == (uint64_t)n_buf_units * nrt + vf_getcount("ctrbuf.units_extra")) vf_setmax("ctrbuf.exhaustive", 1);
 	if (vf_getcount("aesctr.units_done") == (uint64_t)n_stream_units * nrt + vf_getcount("aesctr.units_extra")) vf_setmax("aesctr.exhaustive", 1);
+	vf_count("misalign.exhaustive", 0); if (vf_getcount("misalign.units_done") == (uint64_t)n_misalign_units * nrt) vf_setmax("misalign.exhaustive", 1);
 	if (n_fault_units) { vf_count("selftest-fault.exhaustive", 0); if (vf_getcount("selftest-fault.units_done") == (uint64_t)n_fault_units * nrt) vf_setmax("selftest-fault.exhaustive", 1); }
 	for (i = 0; i < nREG; i++) o += (size_t)snprintf(b + o, sizeof(b) - o, "%s[%llu,%llu]", i ? " u " : "", (unsigned long long)REG[i].lo, (unsigned long long)REG[i].hi);
 	o += (size_t)snprintf(b + o, sizeof(b) - o, "; K={");
@@ -691,6 +724,7 @@ haes_replay(const char * js)
 	int rt = (int)hc_json_int(js, "rt", -1);
 
 	if (rt >= 0) { a_rt = rt; hc_force_rt(rt); }
+	if (hc_json_int(js, "misalign", 0)) { alloc_reset(); alloc_track(1); alloc_misalign(1); a_misalign = 1; printf("allocator returns blocks at 8 mod 16\n"); }
 	keys_init();
 	hc_json_str(js, "kind", kind, sizeof(kind));
 	printf("AES path: %s\n", hc_pathname(2, verif_aes_path()));
